@@ -501,7 +501,11 @@ where
     fn deserialize(runtime: &ConjureRuntime, headers: &HeaderMap, body: R) -> Result<T, Error> {
         let encoding = runtime.request_body_encoding(headers)?;
         let buf = private::read_body(body, Some(N))?;
-        let v = T::deserialize(encoding.deserializer(&buf).deserializer())
+        let mut state = encoding.deserializer(&buf);
+        let v = T::deserialize(state.deserializer())
+            .map_err(|e| Error::service(e, InvalidArgument::new()))?;
+        state
+            .end()
             .map_err(|e| Error::service(e, InvalidArgument::new()))?;
         Ok(v)
     }
@@ -519,7 +523,11 @@ where
     ) -> Result<T, Error> {
         let encoding = runtime.request_body_encoding(headers)?;
         let buf = private::async_read_body(body, Some(N)).await?;
-        let v = T::deserialize(encoding.deserializer(&buf).deserializer())
+        let mut state = encoding.deserializer(&buf);
+        let v = T::deserialize(state.deserializer())
+            .map_err(|e| Error::service(e, InvalidArgument::new()))?;
+        state
+            .end()
             .map_err(|e| Error::service(e, InvalidArgument::new()))?;
         Ok(v)
     }
